@@ -4,5 +4,6 @@ S=/verif/seeded/$1; P=$(python3 -c "import json;print(json.load(open('$S/meta.js
 cd /verif; git -C /repo diff --quiet || { echo "/repo dirty"; exit 3; }
 git -C /repo apply "$S/patch.diff" || exit 2
 IDS=${3:-$P}
+export VERIF_EVIDENCE_DIR=/tmp/seed_evidence
 for id in $IDS; do ./check $id --tier $T > /tmp/seed_eval_$1_$id.log 2>&1; echo "$1 check=$id rc=$? $(grep -c '^VIOLATION' /tmp/seed_eval_$1_$id.log) violation-lines"; grep -E "^VIOLATION|FAILED|INCONCLUSIVE" /tmp/seed_eval_$1_$id.log | head -6; done
 git -C /repo checkout -- .
